@@ -1683,39 +1683,7 @@ impl Archive {
 
             // Validate CRC if present for single unit files
             if file_info.has_sector_crc() && file_info.is_single_unit() {
-                // For single unit files, there's one CRC after the data
-                let mut crc_bytes = [0u8; 4];
-                self.reader.read_exact(&mut crc_bytes)?;
-                let expected_crc = u32::from_le_bytes(crc_bytes);
-
-                // CRC is calculated on the decompressed data
-                let data_to_check = if file_info.is_compressed() {
-                    // We need to decompress first to check CRC
-                    if data.is_empty() {
-                        return Err(Error::compression("Empty compressed data"));
-                    }
-                    let compression_type = data[0];
-                    let compressed_data = &data[1..];
-                    compression::decompress(
-                        compressed_data,
-                        compression_type,
-                        actual_file_size as usize,
-                    )?
-                } else {
-                    data.clone()
-                };
-
-                // MPQ uses ADLER32 for sector checksums, not CRC32 despite the name
-                let actual_crc = adler2::adler32_slice(&data_to_check);
-                if actual_crc != expected_crc {
-                    return Err(Error::ChecksumMismatch {
-                        file: name.to_string(),
-                        expected: expected_crc,
-                        actual: actual_crc,
-                    });
-                }
-
-                log::debug!("Single unit file CRC validated: 0x{actual_crc:08X}");
+                self.verify_single_unit_checksum(&file_info, &data, actual_file_size as usize)?;
             }
 
             // Decompress if needed
@@ -2177,6 +2145,11 @@ impl Archive {
                 decrypt_file_data(&mut data, key);
             }
 
+            // Validate CRC if present for single unit files, as `read_file` does
+            if file_info.has_sector_crc() && file_info.is_single_unit() {
+                self.verify_single_unit_checksum(&file_info, &data, actual_file_size as usize)?;
+            }
+
             // Handle compression for single unit files
             if file_info.is_compressed() {
                 if data.is_empty() {
@@ -2242,6 +2215,56 @@ impl Archive {
                 "Stored data range (offset {pos}, {len} bytes) lies outside the archive file ({file_len} bytes)"
             ))),
         }
+    }
+
+    /// Verify the checksum of a single unit file with the SECTOR_CRC flag
+    ///
+    /// The checksum follows the stored data. As for the sectors of other files it is the
+    /// ADLER32 of the data as stored: `stored` is the data after decryption and before
+    /// decompression. The values 0 and 0xFFFFFFFF mean that there is no checksum.
+    ///
+    /// Earlier versions of `ArchiveBuilder` wrote the checksum of the original file
+    /// content instead. For compressed files that one is accepted as well, so that
+    /// their archives stay readable.
+    fn verify_single_unit_checksum(
+        &mut self,
+        file_info: &FileInfo,
+        stored: &[u8],
+        file_size: usize,
+    ) -> Result<()> {
+        let checksum_pos = file_info.file_pos.saturating_add(file_info.compressed_size);
+        self.ensure_stored_range(checksum_pos, 4)?;
+        self.reader.seek(SeekFrom::Start(checksum_pos))?;
+        let mut checksum_bytes = [0u8; 4];
+        self.reader.read_exact(&mut checksum_bytes)?;
+        let expected = u32::from_le_bytes(checksum_bytes);
+        if expected == 0 || expected == 0xFFFF_FFFF {
+            return Ok(());
+        }
+
+        // MPQ uses ADLER32 for sector checksums, not CRC32 despite the name
+        let actual = adler2::adler32_slice(stored);
+        if actual == expected {
+            log::debug!("Single unit file CRC validated: 0x{actual:08X}");
+            return Ok(());
+        }
+
+        // Checksum of the decompressed content, written by earlier builder versions
+        if file_info.is_compressed()
+            && stored.len() != file_size
+            && !stored.is_empty()
+            && let Ok(content) = compression::decompress(&stored[1..], stored[0], file_size)
+            && adler2::adler32_slice(&content) == expected
+        {
+            log::debug!("Single unit file CRC validated over its content: 0x{expected:08X}");
+            return Ok(());
+        }
+
+        Err(Error::ChecksumMismatch {
+            file: file_info.filename.clone(),
+            expected,
+            actual,
+        })
     }
 
     /// Load the checksums of the data sectors of a file with the SECTOR_CRC flag
